@@ -222,6 +222,15 @@ impl<'tcx> Cx<'tcx> {
         if let mir::Const::Unevaluated(u, _) = c.const_ {
             let _ = write!(o, ",\"named\":{}", esc(&self.path(u.def)));
             self.named.borrow_mut().insert(u.def);
+            // a named `&str` constant: record the literal it evaluates to (file-name tables are compared by value)
+            if let ty::Ref(_, inner, _) = t.kind() {
+                if inner.is_str() && tcx.generics_of(u.def).count() == 0 && u.args.is_empty() {
+                    let env = ty::TypingEnv::post_analysis(tcx, owner.to_def_id());
+                    if let Ok(v) = c.const_.eval(tcx, env, c.span) {
+                        let _ = write!(o, ",\"sv\":{}", esc(&format!("{}", mir::Const::Val(v, t))));
+                    }
+                }
+            }
         }
         o.push('}');
         o
